@@ -10,8 +10,8 @@ WRAP_FILES = ["kvstore/flushkv/flushkv.go", "kvstore/debug/debug.go"]
 
 
 def regen(ctx):
-    """Three regenerated modules (the first two pinned by `rfl` obligations in Hive/Props/C04.lean, the third is the INPUT of the
-    theorems C04_wrapper_model_is_the_source_*):
+    """Four regenerated modules (the first two pinned by `rfl` obligations in Hive/Props/C04.lean, C04_Wrap / C04_Map are the INPUT of the
+    theorems C04_wrapper_model_is_the_source_* / C04_mapdb_*model_is_the_source):
     Hive/Gen/C04_Skel.lean  - type facts (struct fields of the stores and batches, underlying types of IterDirection / Command / BitMask);
     Hive/Gen/C04_Calls.lean - for every function of the anchored kvstore files the calls it makes, in source order, with the
                               arguments expressed by parameter positions (harness/c04/gen)."""
@@ -39,6 +39,17 @@ def regen(ctx):
     if rc != 0 or not os.path.exists(tmp):
         return fails + [{"kind": "wrapper-translator", "detail": checklib.tail(log, 20)}]
     checklib.write_gen(ctx, out, open(tmp).read())
+    # Hive/Gen/C04_Map.lean: the method bodies of mapdb.go translated into the statement language of Hive/Model/KVMapSrc.lean
+    # (harness/c04/mgen); the value model of views and batches is proved to be their interpretation
+    out = os.path.join(checklib.LEAN, "Hive", "Gen", "C04_Map.lean")
+    tmp = os.path.join(ctx.scratch, "C04_Map.lean")
+    if os.path.exists(tmp):
+        os.remove(tmp)
+    rc, log = checklib.sh(["go", "run", "./c04/mgen", tmp, "Hive.Gen.C04Map", os.path.join(ctx.repo, "kvstore/mapdb/mapdb.go")],
+                          cwd=checklib.HARNESS, timeout=600)
+    if rc != 0 or not os.path.exists(tmp):
+        return fails + [{"kind": "mapdb-translator", "detail": checklib.tail(log, 20)}]
+    checklib.write_gen(ctx, out, open(tmp).read())
     return fails
 
 
@@ -63,6 +74,7 @@ SPEC = {
                  "C04_iterate_hands_out_key_and_value_copies",
                  "C04_wrapper_model_is_the_source_flushkv", "C04_wrapper_model_is_the_source_debug", "C04_wrapper_constructors_text",
                  "C04_trace_model_is_sem",
+                 "C04_mapdb_model_is_the_source", "C04_mapdb_batch_model_is_the_source", "C04_mapdb_constructor_text",
                  "C04_calls_mapdb", "C04_calls_flushkv", "C04_calls_debug", "C04_calls_kvstore_utils", "C04_skeleton_types"],
     "trusted_base": [
         "hand-written model Hive/Model/KV.lean of kvstore/mapdb (+ flushkv, debug wrappers), tied to the working tree by "
